@@ -67,12 +67,23 @@ def compute(prog, rep):
               f"a boundary cell has one of its 3^n - 1 neighbours outside: the structuring element must be the full np.ones((3,)*n_dim); found {show(s_e)[:120] if s_e else None}")
     full_t = er[2]
     region = be.get("input") if be else None
-    okb = full_t[0] == "bin" and full_t[1] == "-" and full_t[2] == region and full_t[3] == er[1] and set(be) <= {"input", "structure"} and bl.get("input") == full_t
-    rep.check(okb, "C15.struct", f"{q}:boundary", fn.where(er[0]), "boundary = region - binary_erosion(region) (default border), labelled as is",
-              f"the boundary must be region minus the erosion of the SAME region with scipy's default border value, and the labelled array must be that boundary; found {show(full_t)[:160]}")
+    okb = full_t[0] == "bin" and full_t[1] == "-" and full_t[2] == region and full_t[3] == er[1] and set(be) <= {"input", "structure"}
+    rep.check(okb, "C15.struct", f"{q}:boundary", fn.where(er[0]), "boundary = region - binary_erosion(region) (default border)",
+              f"the boundary must be region minus the erosion of the SAME region with scipy's default border value; found {show(full_t)[:160]}")
+    # 'one coordinate set per region': the connected components are those of the REGION. The boundary of one connected region with a
+    # hole (a ring: direction variable concentrated for medium values of the first variable) has one component per boundary loop.
+    rep.check(region is not None and bl.get("input") == region, "C15.struct", f"{q}:regions-labelled", fn.where(lab[0]),
+              "the connected components are those of the region (label(region)), restricted to the boundary cells afterwards",
+              "ndi.label is applied to the boundary mask: x1 ~ Normal(5, 2), x2 | x1 ~ VonMises(mu=0, kappa=0.05 + 30 exp(-(x1-5)^2/2)), alpha=0.01, limits [(-3, 13), (0, 2 pi)], "
+              "deltas [0.1, 0.05] encloses ONE connected ring-shaped region (734 boundary cells) but .coordinates came back as a list of two sets (404 outer + 330 inner "
+              f"loop) instead of one (N, 2) array; label the region and mask the labels with the boundary; labelled: {show(bl.get('input'))[:100] if bl else None}")
     # region is the selection result (or the all-ones fallback)
     # ---- coordinates
-    labeled = IT(lab[1], 0)
+    lab0 = IT(lab[1], 0)
+    masks = [full_t, ("not", CMP("==", full_t, ("const", 0))), CMP(">", full_t, ("const", 0)), ("call", ("attr", full_t, "astype"), (G("bool"),), ())]
+    labeleds = [lab0] if bl.get("input") == full_t else []
+    for m_ in masks:
+        labeleds += [("bin", "*", lab0, m_), ("bin", "*", m_, lab0), ("call", G("numpy.where"), (m_, lab0, ("const", 0)), ())]
     nmodes = IT(lab[1], 1)
     # the list of per-region coordinate sets as a term: a comprehension over the labels, or a list filled by one append in a
     # loop over the labels (the same term); each element the per-dimension lookup, again comprehension or append loop
@@ -90,7 +101,12 @@ def compute(prog, rep):
     if len(outers) == 1:
         outer = outers[0]
         i = ("idx", outer[3], "range", (("const", 1), ("bin", "+", nmodes, ("const", 1))))
-        nz = ("call", G("numpy.nonzero"), (CMP("==", labeled, i),), ())
+        nzs = [("call", G("numpy.nonzero"), (CMP("==", l_, i),), ()) for l_ in labeleds]
+        nzs += [("call", G("numpy.nonzero"), (("bin", "&", CMP("==", lab0, i), m_),), ()) for m_ in masks[1:]]
+        nzs += [("call", G("numpy.nonzero"), (("bin", "&", m_, CMP("==", lab0, i)),), ()) for m_ in masks[1:]]
+        seen_nz = [w_ for s_ in cfg.all_stmts() if isinstance(s_, (ast.Assign, ast.Expr)) for n_ in ast.walk(s_) if isinstance(n_, ast.Call)
+                   for w_ in [b.term(n_, s_)] if w_[0] == "call" and w_[1] == G("numpy.nonzero")]
+        nz = next((z_ for z_ in nzs if z_ in seen_nz), nzs[0] if nzs else None)
         CCs = [s for s in cfg.all_stmts() if isinstance(s, ast.Assign) and isinstance(s.targets[0], ast.Attribute) and s.targets[0].attr == "cell_center_coordinates"]
         CC = b.term(CCs[0].value, CCs[0]) if len(CCs) == 1 else None
 
